@@ -5,7 +5,7 @@
    of any of the 17 messages from any sender at any time with any funds; `run` is any
    sequence of calls (a failed call leaves the state alone, as on the chain).
    Stated bound: expirations are Never / AtTime (AtHeight is not modelled). *)
-From LP Require Import Num Pay Sg1 Consts Collection CollectionProofs.
+From LP Require Import Num Pay Sg1 Consts Semver Collection CollectionProofs.
 Import ListNotations.
 Local Open Scope N_scope.
 
@@ -116,6 +116,63 @@ Theorem C09_token_step : forall ct self e o s s' ms id t,
      ((exists to, o = OTransfer to id) \/ (exists to acc, o = OSend to id acc)) /\ ct <> NT).
 Proof. exact step_token. Qed.
 
+(* ==== histories that contain migrations ====
+   `dstep`/`drun` act on the deployed contract (code it runs, wasm admin, cw2 record,
+   state): a transaction is a call (as above) or a migration to the sg721-updatable code,
+   which the chain lets only the admin perform. *)
+
+(* a migration keeps tokens, count, operators, the minter, collection info and its freeze *)
+Theorem C09_migration_keeps_tokens_and_info : forall self e d d' ms,
+  dstep self e AMigrate d = Ok (d', ms) ->
+  d_admin d = sender e /\ d_ct d' = Updatable /\
+  tokens (d_st d') = tokens (d_st d) /\ token_count (d_st d') = token_count (d_st d) /\
+  operators (d_st d') = operators (d_st d) /\ own (d_st d') = own (d_st d) /\
+  info (d_st d') = info (d_st d) /\ frozen (d_st d') = frozen (d_st d).
+Proof. exact migrate_keeps. Qed.
+
+(* count = number of tokens and ids unique along any history of calls and migrations *)
+Theorem C09_count_inv_with_migrations : forall self ct admin time0 by_contract funds0 minter c s txs,
+  instantiate ct time0 by_contract funds0 minter c = Ok s ->
+  token_count (d_st (drun self (fresh ct admin s) txs))
+    = N.of_nat (length (tokens (d_st (drun self (fresh ct admin s) txs)))) /\
+  NoDup (map fst (tokens (d_st (drun self (fresh ct admin s) txs)))).
+Proof. exact d_count_inv_from_creation. Qed.
+
+Theorem C09_count_inv_with_migrations_any_record : forall self txs d,
+  token_count (d_st d) = N.of_nat (length (tokens (d_st d))) -> NoDup (map fst (tokens (d_st d))) ->
+  token_count (d_st (drun self d txs)) = N.of_nat (length (tokens (d_st (drun self d txs)))) /\
+  NoDup (map fst (tokens (d_st (drun self d txs)))).
+Proof. exact d_tokens_ok_run. Qed.
+
+(* the collection-info freeze is final over calls and migrations (start_trading_time excluded) *)
+Theorem C09_frozen_is_final_with_migrations : forall self txs d,
+  frozen (d_st d) = true ->
+  creator_fields (d_st (drun self d txs)) = creator_fields (d_st d) /\
+  frozen (d_st (drun self d txs)) = true.
+Proof. exact d_frozen_is_final. Qed.
+
+(* once token metadata is frozen on an updatable collection whose cw2 name is one of the
+   two sg721-updatable names (never an sg721-base name: migrating from sg721-base rewrites
+   the record), no call and no migration - whatever cw2 version is recorded - changes the
+   URI of a token while it lives; the collection stays updatable, non-base-named, frozen *)
+Theorem C09_metadata_frozen_final_with_migrations : forall self id txs d t,
+  d_ct d = Updatable /\ is_base_name (d_name d) = false /\ md_frozen (d_st d) = true ->
+  NoDup (map fst (tokens (d_st d))) -> tfind id (tokens (d_st d)) = Some t ->
+  d_alive_through self id d txs ->
+  (exists t', tfind id (tokens (d_st (drun self d txs))) = Some t' /\ k_uri t' = k_uri t) /\
+  (d_ct (drun self d txs) = Updatable /\ is_base_name (d_name (drun self d txs)) = false /\
+   md_frozen (d_st (drun self d txs)) = true).
+Proof. exact d_metadata_frozen_final. Qed.
+
+(* sg721-nt (cw2 name not accepted by the updatable migration) stays sg721-nt and a
+   token's owner stays the same between mint and burn, migrate attempts included *)
+Theorem C09_nt_owner_constant_with_migrations : forall self id txs d t,
+  d_ct d = NT /\ compatible_name (d_name d) = false ->
+  NoDup (map fst (tokens (d_st d))) -> tfind id (tokens (d_st d)) = Some t ->
+  d_alive_through self id d txs ->
+  exists t', tfind id (tokens (d_st (drun self d txs))) = Some t' /\ k_owner t' = k_owner t.
+Proof. exact d_nt_owner_constant. Qed.
+
 (* ---- non-vacuity: concrete collections (ids: 10 puppet/minter, 11 collection, 12 creator,
    15 alice, 16 bob, 14 minter2) *)
 Example C09_ex_duplicate_and_foreign_mint :
@@ -166,6 +223,21 @@ Example C09_ex_nt :
   token_count (run NT 11 s1 [(c09_at 1003 15, OBurn 1)]) = 0.
 Proof. vm_compute. repeat split; reflexivity. Qed.
 
+(* freeze -> migrate (legacy cw2 name, any accepted version) -> enable -> update: refused *)
+Example C09_ex_frozen_survives_legacy_migration :
+  let d0 := mkDep Updatable 12 NUpdLegacy (3, 1, 0) (c09_ex_boot Updatable) in
+  let d := drun 11 d0 [(c09_at 1001 10, ACall (OMint 1 15 (Some 1)));
+                       (c09_at 1002 12, ACall OFreezeTokenMd);
+                       (c09_at 1003 15, AMigrate);
+                       (c09_at 1004 12, AMigrate)] in
+  d_ver d = CUR_VERSION /\ d_name d = NUpd /\ md_frozen (d_st d) = true /\
+  dstep 11 (mkEnv 1005 12 [mkCoin NATIVE 1500000000]) (ACall OEnableUpdatable) d = Err /\
+  dstep 11 (c09_at 1005 12) (ACall (OUpdateTokenMd 1 (Some 2))) d = Err /\
+  (* the same migration of an sg721-base collection starts with updates disabled, unfrozen *)
+  (let b := drun 11 (fresh Base 12 (c09_ex_boot Base)) [(c09_at 1001 10, ACall (OMint 1 15 (Some 1))); (c09_at 1004 12, AMigrate)] in
+   d_ct b = Updatable /\ md_frozen (d_st b) = false /\ md_enabled (d_st b) = false /\ token_count (d_st b) = 1).
+Proof. vm_compute. repeat split; reflexivity. Qed.
+
 Print Assumptions C09_mint_ok.
 Print Assumptions C09_created_only_by_mint.
 Print Assumptions C09_minter_changes_only_by_handover.
@@ -179,3 +251,10 @@ Print Assumptions C09_freeze_metadata_ok.
 Print Assumptions C09_metadata_frozen_final.
 Print Assumptions C09_nt_owner_constant.
 Print Assumptions C09_token_step.
+
+Print Assumptions C09_migration_keeps_tokens_and_info.
+Print Assumptions C09_count_inv_with_migrations.
+Print Assumptions C09_count_inv_with_migrations_any_record.
+Print Assumptions C09_frozen_is_final_with_migrations.
+Print Assumptions C09_metadata_frozen_final_with_migrations.
+Print Assumptions C09_nt_owner_constant_with_migrations.
